@@ -296,16 +296,21 @@ Fixpoint str_eqb (a b : str) : bool :=
   | _, _ => false
   end.
 
-Definition bn_from_dec (s : str) : res lit :=
+(* the policy is scraped (Gen.dec_literal_checked): true = the repaired reader with the test, false = the reader
+   before the repair, which kept the parsed value (reduced mod 2^BITS) *)
+Definition bn_from_dec_pol (checked : bool) (s : str) : res lit :=
   match frombase s 10 with
   | Err e => Err e
   | Ok n =>
-      match dec_digits s with
-      | None => Ok (LInt n)
-      | Some digits =>
-          match todecint n with
-          | Err e => Err e
-          | Ok t => if str_eqb t digits then Ok (LInt n) else Ok LFloat
-          end
-      end
+      if checked then
+        match dec_digits s with
+        | None => Ok (LInt n)
+        | Some digits =>
+            match todecint n with
+            | Err e => Err e
+            | Ok t => if str_eqb t digits then Ok (LInt n) else Ok LFloat
+            end
+        end
+      else Ok (LInt n)
   end.
+Definition bn_from_dec := bn_from_dec_pol dec_literal_checked.
